@@ -757,6 +757,12 @@ func main() {
 	for i := 0; i < cfg.N/6+2; i++ {
 		runLookups(out, root, i, r)
 	}
+	// the rollup layer
+	runRollupHistory(out, root, 0, "a rollup whose work fails for both targets, a compaction, a retry", strings.Fields("F F R00 C S R11 C S"), r)
+	runRollupHistory(out, root, 1, "one target fails, then the other", strings.Fields("F F R10 C F R01 C R11 F C"), r)
+	for i := 0; i < cfg.N/3+3; i++ {
+		runRollupHistory(out, root, i+2, "random", nil, r)
+	}
 	out.Notes = append(out.Notes, "every schedule is forced: flush commit and obsolete-file deletion run in goroutines parked at the scheduling points; a compaction run is taken as a whole (its model events are emitted as a block, observed at its end)")
 	out.Finish()
 }
